@@ -4,13 +4,14 @@
    TFLAG.shape[1] and TFLAG[:,0,:], the variables with the standard dimensions, NLAYS NROWS NCOLS vs. LAY ROW COL,
    len(VGLVLS), SDATE STIME TSTEP).  coherentb = the conjunction of the statement (plus "at least one variable slot",
    without which TFLAG[0,0,:] does not exist, and "TSTEP unlimited", the IOAPI clause of C01).
-   iop_region: 0 = proved domain, 1 = renameVariable, 2 = reducer along TSTEP over more than one step,
-   3 = function along LAY leaving more than one layer, 4 = subsetVariables selecting no listed variable,
-   5 = a standard variable missing from VAR-LIST (never produced by the library's own constructors). *)
+   iop_region: 0 = proved domain, 1 = reducer along TSTEP over more than one step, 2 = subsetVariables selecting no
+   listed variable, 3 = a standard variable missing from VAR-LIST (never produced by the library's own constructors).
+   The model describes the code AS REPAIRED by fixes/C10-renameVariable-varlist.patch and fixes/C10-apply-vglvls.patch:
+   renameVariable and functions along LAY need no side condition any more. *)
 From PNC Require Import Base.Util Model.FileStruct Model.Ioapi Proofs.IoapiProofs.
 Local Open Scope Z_scope.
 
-(* One step of copy, subsetVariables, sliceDimensions, applyAlongDimensions or stack, from ANY coherent file
+(* One step of copy, subsetVariables, renameVariable, sliceDimensions, applyAlongDimensions or stack, from ANY coherent file
    (any numbers of steps/layers/rows/columns/variables, gridded or boundary), inside the safe domain:
    if it completes, the result is coherent.
    PARTIAL: eval, mask and interpSigma are modelled (Model/Ioapi.v impl_eval/impl_mask/impl_interp) and held to the
@@ -50,13 +51,6 @@ Definition f0_4lay : io :=
   IO 3 4 (Some 3%nat) (Some 4%nat) 2 true [0%nat; 1%nat] (Some (2%nat, [(2000001, 0); (2000001, 10000); (2000001, 20000)]))
      2 [0%nat; 1%nat] 4 3 4 5 2000001 0 10000.
 
-(* renameVariable('O3','OZONE'): NVARS = 3, VAR-LIST = [O3, NO, OZONE], VAR = 2, O3 gone *)
-Theorem C10_rename_refuted : exists f g,
-  coherentb f = true /\ istep f (IRename 0%nat 5%nat) = Ok g /\ coherentb g = false
-  /\ nvars g = 3%nat /\ vardim g = 2%nat /\ varlist g = [0%nat; 1%nat; 5%nat] /\ dvars g = [1%nat; 5%nat].
-Proof. exists f0. eexists. vm_compute. repeat split; reflexivity. Qed.
-Print Assumptions C10_rename_refuted.
-
 (* applyAlongDimensions(TSTEP='mean'): TFLAG is averaged like data, SDATE/STIME keep the first step *)
 Theorem C10_apply_tstep_refuted : exists f g,
   coherentb f = true /\ istep f (IApply DT FMean) = Ok g /\ coherentb g = false
@@ -64,24 +58,25 @@ Theorem C10_apply_tstep_refuted : exists f g,
 Proof. exists f0. eexists. vm_compute. repeat split; reflexivity. Qed.
 Print Assumptions C10_apply_tstep_refuted.
 
-(* applyAlongDimensions(LAY=lambda x: x[::2]) on four layers: two layers, four VGLVLS entries *)
-Theorem C10_apply_lay_refuted : exists f g,
-  coherentb f = true /\ istep f (IApply DL FHalf) = Ok g /\ coherentb g = false /\ nl g = 2%nat /\ nvgl g = 4%nat.
-Proof. exists f0_4lay. eexists. vm_compute. repeat split; reflexivity. Qed.
-Print Assumptions C10_apply_lay_refuted.
-
 (* subsetVariables([]): NVARS = 0 but VAR = 1 and TFLAG.shape[1] = 1 *)
 Theorem C10_subset_empty_refuted : exists f g,
   coherentb f = true /\ istep f (ISubset []) = Ok g /\ coherentb g = false /\ nvars g = 0%nat /\ vardim g = 1%nat.
 Proof. exists f0. eexists. vm_compute. repeat split; reflexivity. Qed.
 Print Assumptions C10_subset_empty_refuted.
 
+(* ---- the repaired operations on the former witnesses (evaluation of the model) ----------------------------------- *)
+Example C10_repaired_witnesses :
+  (exists g, istep f0 (IRename 0%nat 5%nat) = Ok g /\ coherentb g = true
+             /\ nvars g = 2%nat /\ vardim g = 2%nat /\ varlist g = [5%nat; 1%nat] /\ dvars g = [1%nat; 5%nat])  (* renamed IN PLACE *)
+  /\ (exists g, istep f0_4lay (IApply DL FHalf) = Ok g /\ coherentb g = true /\ nl g = 2%nat /\ nvgl g = 3%nat).
+Proof. vm_compute. split; eexists; repeat split; reflexivity. Qed.
+
 (* ---- non-vacuity -------------------------------------------------------------------------------------- *)
 Definition iops_ex : list iop :=
-  [ISlice DT 1 2 1; ISubset [1%nat]; IApply DL FMean; IStack 2 [(2000001, 10000); (2000001, 20000)]; ICopy; IApply DR FHalf].
+  [ISlice DT 1 2 1; ISubset [1%nat]; IRename 1%nat 5%nat; IApply DL FHalf; IStack 2 [(2000001, 10000); (2000001, 20000)]; ICopy; IApply DR FHalf].
 Example C10_hyp_inhabited :
   coherentb f0 = true /\ forallb proved_op iops_ex = true /\ irun_region f0 iops_ex = 0%nat
-  /\ exists g, irun f0 iops_ex = Ok g /\ coherentb g = true /\ nt g = 4%nat /\ nvars g = 1%nat /\ stime g = 10000 /\ nvgl g = 2%nat.
+  /\ exists g, irun f0 iops_ex = Ok g /\ coherentb g = true /\ nt g = 4%nat /\ nvars g = 1%nat /\ stime g = 10000 /\ nvgl g = 2%nat /\ varlist g = [5%nat].
 Proof. vm_compute. repeat split; try reflexivity. eexists. repeat split; reflexivity. Qed.
 (* the unproved operations do restore coherence on this example (evaluation, not proof) *)
 Example C10_eval_mask_interp_example :
